@@ -268,7 +268,16 @@ where
     let _ = writeln!(out, "sent {}", items.iter().map(|i| hex(&to_bytes(i))).collect::<Vec<_>>().join(" "));
     let n = items.len();
     let mut send_ok = true;
-    for it in items {
+    // batched cases with an even number of items: half-way through, while items may be queued in the
+    // batch, the publisher is duplicated and the idle duplicate finished -- it has accepted nothing
+    // and must deliver nothing
+    let dup_at = if cfg.batch.is_some() && n >= 2 && n % 2 == 0 { Some(n / 2) } else { None };
+    for (k, it) in items.into_iter().enumerate() {
+        if Some(k) == dup_at {
+            if let Ok(d) = publisher.duplicate().await {
+                let _ = d.finish().await;
+            }
+        }
         let r = if cfg.feed { publisher.feed(it).await } else { publisher.send(it).await };
         if r.is_err() {
             send_ok = false;
